@@ -94,6 +94,8 @@ def step (line : String) : String :=
     " ".intercalate ((contentToPatterns (parseSrc src) (unhex c)).map (fun p => hex p.glob ++ ":" ++ b01 p.white))
   | "check" :: p :: rest =>
     showResult (check ((pairs rest).map (fun sl => Pattern.new sl.1 sl.2)) (unhex p))
+  | "checkm" :: p :: rest =>
+    showResult (check ((pairs rest).map (fun sl => Pattern.new sl.1 sl.2)) (unhex p))
   | ["walk", t] => showPaths (walkSpec (buildTree 8 (parseTreeEntries t)))
   | ["checkignore", t, p] => showResult (check (allRules (buildTree 8 (parseTreeEntries t))) (unhex p))
   | ["gcheckignore", t, p] => showResult (check (Git.gitRules (buildTree 8 (parseTreeEntries t))) (unhex p))
